@@ -2,7 +2,6 @@ import Driver.Util
 import Driver.Beh
 import ESV.Decomp.Sem
 import ESV.Decomp.Optimize
-import ESV.Decomp.GraphGuard
 open Lean Drv ESV ESV.Beh ESV.Decomp
 
 namespace Drv.DecompD
